@@ -103,7 +103,7 @@ fn plans(base: &crate::exec::RunStats, seed: u64, idx: u64, thorough: bool) -> V
 pub fn check(tier: &str, seed: u64) -> i32 {
     let thorough = tier == "thorough";
     let scale: f64 = std::env::var("VERIF_SCALE").ok().and_then(|s| s.parse().ok()).unwrap_or(1.0);
-    let nscripts = (((if thorough { 400 } else { 12 }) as f64) * scale).max(1.0) as u64;
+    let nscripts = (((if thorough { 300 } else { 8 }) as f64) * scale).max(1.0) as u64;
     let t0 = Instant::now();
     let known = load_known();
     let tally = Mutex::new(Tally {
